@@ -19,6 +19,7 @@ line = `<list> width indent haspen pen`.
       → the model's `addText` items (`0 c | 1 c <n> orig lb rb | 2 w | 3 | 4 tag <glue>`); run item = `0 c | 1 w | 2 c <n> orig lb rb`
 * `spt <n> items <n> text` → `spells glue-count` (S on the real list, words split by Lean)
 * `wfs <n> chars` → the fields `box linebreak --widths=<chars>` hands to `parse_from_string`: `<k> (<n> chars)*`
+* `lsw nat width st0..st3 sh0..sh3 order num den` → `ok` | violated clause (is the line set to its width?)
 * `dfl` → plain TeX's defaults: `<n> (c sfcode)* interline club widow broken <glue left> <glue right> <glue parfill> <glue spaceskip> <glue xspaceskip>`
 -/
 open C12 Proto
@@ -388,6 +389,14 @@ def handle (line : String) : String :=
       let fs := widthFields str
       showInts ((fs.length : Int) :: (fs.map fun f => (f.length : Int) :: f.map Int.ofNat).flatten)
     | none => "bad-request"
+  | "lsw" :: ws =>
+    -- `lsw nat width st0 st1 st2 st3 sh0 sh1 sh2 sh3 order num den` → `ok` | clause
+    match ints? ws with
+    | some [nat, width, a0, a1, a2, a3, b0, b1, b2, b3, order, num, den] =>
+      match lineSetVerdict nat width [a0, a1, a2, a3] [b0, b1, b2, b3] order.toNat num den with
+      | none => "ok"
+      | some c => c
+    | _ => "bad-request"
   | ["dfl"] =>
     let sparse := ((List.range 256).filter fun (c : Nat) => plainSfCode c != 1000).map
       fun (c : Nat) => [Int.ofNat c, plainSfCode c]
